@@ -1770,6 +1770,15 @@ func (n *node) spawn(factory gen.ProcessFactory, options gen.ProcessOptionsExtra
 		n.targetManager.AddLink(p.parent, p.pid)
 	}
 
+	if p.application != "" && options.ParentPID == n.corePID {
+		// a member of an application (spawned by application.start): it must
+		// be in the member table before it can run and terminate, otherwise
+		// its termination is not seen by the application
+		if v, exist := n.applications.Load(p.application); exist {
+			v.(*application).group.Store(p.pid, true)
+		}
+	}
+
 	// register process and switch it to the sleep state
 	p.state = int32(gen.ProcessStateSleep)
 	n.processes.Store(p.pid, p)
